@@ -146,3 +146,40 @@ def sexpr(n: Node) -> Any:
     if n.k == "map":
         return ["map"] + [[sexpr(k), sexpr(v)] for k, v in n.a]
     raise ValueError(n.k)
+
+
+
+def with_simple_literals(n: Node) -> Node:
+    """A copy of a converted tree in which plainly spelled literals (decimal int/uint, simple floats, true/false/null,
+    quoted strings without escapes) become model literals, so that the reference evaluator can run hand-written texts."""
+    import re
+
+    def lit(x):
+        if x.k != "raw" or not str(x.a[3]).startswith("literal:"):
+            return None
+        text, kind = x.a[0], x.a[3].split(":", 1)[1]
+        if kind == "INT_LIT" and re.fullmatch(r"-?(0|[1-9]\d*)", text):
+            return Node("lit", "int", ("int", int(text)))
+        if kind == "UINT_LIT" and re.fullmatch(r"(0|[1-9]\d*)[uU]", text):
+            return Node("lit", "uint", ("uint", int(text[:-1])))
+        if kind == "FLOAT_LIT" and re.fullmatch(r"-?\d+\.\d+", text):
+            return Node("lit", "double", ("double", float(text)))
+        if kind == "BOOL_LIT":
+            return Node("lit", "bool", ("bool", text == "true"))
+        if kind == "NULL_LIT":
+            return Node("lit", "null", ("null", None))
+        if kind == "STRING_LIT" and re.fullmatch(r"'[^'\\\n]*'|\"[^\"\\\n]*\"", text):
+            return Node("lit", "string", ("string", text[1:-1]))
+        return None
+
+    def rec(x):
+        if not isinstance(x, Node):
+            if isinstance(x, tuple):
+                return tuple(rec(y) for y in x)
+            return x
+        r = lit(x)
+        if r is not None:
+            return r
+        return Node(x.k, x.t, *[rec(y) for y in x.a])
+
+    return rec(n)
